@@ -135,6 +135,19 @@ fn run_case(c: &Case) -> (Vec<Violation>, String) {
         return (vec![mk(format!("builder-image-invalid:{}", cl), d)], "builder-invalid".into());
     }
     let cs = 1usize << c.cb;
+    // a third of the cases: the preallocation of a zero-flagged cluster is not exclusively owned (as after an
+    // internal snapshot) - its L2 entry has COPIED clear; it still reads as zeros and maps the same offset
+    let mut chain = chain;
+    if c.hlen == 120 {
+        let wanted: Vec<u64> = chain[0].truth.iter().filter(|t| t.kind == GKind::ZeroPrealloc).map(|t| (1u64 << 63) | t.host_off | 1).collect();
+        let bytes = &mut chain[0].bytes;
+        for o in (0..bytes.len() / 8 * 8).step_by(8) {
+            let v = u64::from_be_bytes(bytes[o..o + 8].try_into().unwrap());
+            if v >> 63 == 1 && wanted.contains(&v) {
+                bytes[o] &= 0x7f;
+            }
+        }
+    }
     let sim = Sim::new(chain.iter().map(|b| b.bytes.clone()).collect());
     let sb = c.cb.min(12) as u8;
     let sb = sb.max(c.bs_bits);
